@@ -116,6 +116,7 @@ def r2(ctx: Ctx, rep: Report):
     from ..astutil import call_chain
     from ..model import norm
     prog = ctx.prog
+    from ..paths import enumerate_paths, no_raise
     n = 0
     for famname in ("ET", "DT", "ES"):
         ci = prog.cls(famname)
@@ -123,20 +124,28 @@ def r2(ctx: Ctx, rep: Report):
             m = ci.methods.get(mname)
             if m is None:
                 continue
-            for node in ast.walk(m.node):
-                if isinstance(node, ast.Call) and norm(node.func) == "int.from_bytes" and node.args and isinstance(node.args[0], ast.Call) \
-                        and (call_chain(node.args[0]) or ("",))[-1] == "read":
-                    nbytes = prog.consteval(node.args[0].args[0], m.module)
-                    # the request built in the same branch
-                    reqs = [c for c in ast.walk(m.node) if isinstance(c, ast.Call) and (call_chain(c) or ("",))[-1] == "_read_command" and len(c.args) == 2
-                            and "sensor_id" in norm(c.args[0]) or (isinstance(c, ast.Call) and (call_chain(c) or ("",))[-1] == "_read_command" and len(c.args) == 2 and "setting_id" in norm(c.args[0]))]
-                    if not reqs:
-                        continue
-                    cnt = prog.consteval(reqs[0].args[1], m.module)
-                    n += 1
-                    rep.check(nbytes <= 2 * cnt, "C14.R2", "modbus-n:%s.%s" % (famname, mname), m.loc(node),
-                              "%s.%s('modbus-N') decodes %d bytes of the %d register(s) it fetches" % (famname, mname, nbytes, cnt),
-                              bad="%s.%s('modbus-N') decodes %d bytes from a %d-register answer" % (famname, mname, nbytes, cnt))
+            seen = set()
+            for p in enumerate_paths(prog, m, no_raise):
+                # the raw-register branch: <id>.startswith('modbus') tested True (helpers the branch calls are inlined)
+                if not any(ev.kind == "test" and ev.data is True and isinstance(ev.node, ast.Call) and (call_chain(ev.node) or ("",))[-1] == "startswith"
+                           and ev.node.args and isinstance(ev.node.args[0], ast.Constant) and str(ev.node.args[0].value).startswith("modbus") for ev in p.events):
+                    continue
+                reqs = [ev.node for ev in p.events if ev.kind == "call" and (call_chain(ev.node) or ("",))[-1] == "_read_command" and len(ev.node.args) == 2]
+                decs = [ev.node for ev in p.events if ev.kind == "call" and norm(ev.node.func) == "int.from_bytes" and ev.node.args
+                        and isinstance(ev.node.args[0], ast.Call) and (call_chain(ev.node.args[0]) or ("",))[-1] == "read"]
+                if not reqs or not decs:
+                    continue
+                key = (id(reqs[0]), id(decs[0]))
+                if key in seen:
+                    continue
+                seen.add(key)
+                fn_of = p.fn_at(next(i for i, ev in enumerate(p.events) if ev.node is decs[0]), m)
+                nbytes = prog.consteval(decs[0].args[0].args[0], fn_of.module)
+                cnt = prog.consteval(reqs[0].args[1], fn_of.module)
+                n += 1
+                rep.check(len(reqs) == 1 and len(decs) == 1 and nbytes <= 2 * cnt, "C14.R2", "modbus-n:%s.%s" % (famname, mname), fn_of.loc(decs[0]),
+                          "%s.%s('modbus-N') decodes %d bytes of the %d register(s) it fetches" % (famname, mname, nbytes, cnt),
+                          bad="%s.%s('modbus-N') decodes %d bytes from a %d-register answer" % (famname, mname, nbytes, cnt))
     if n < 4:
         raise AnalysisError("only %d modbus-N read sites found" % n)
 
